@@ -264,6 +264,10 @@ func checkC01(c *runCtx) {
 		sp{"1x1 B>A only, full BFS", pairCfg{KindsA: host1, KindsB: host1, Blocked: []string{"a0>b0"}, Ticks: 3, Drops: 1, Dups: 1}},
 		sp{"1x1 unreachable, full BFS", pairCfg{KindsA: host1, KindsB: host1, Blocked: []string{"a0>b0", "b0>a0"}, Ticks: 3, Drops: 1, Dups: 1}},
 	)
+	// distinct priorities: a full BFS without loss (pure reordering and tick placement)
+	specs = append(specs,
+		sp{"1x2 distinct priorities, full BFS, reordering only", pairCfg{KindsA: host1, KindsB: host2, PrioB: []uint32{2130706431, 1694498815}, Ticks: 2}},
+	)
 	// deviation-bounded, larger topologies
 	specs = append(specs,
 		sp{"2x1 reachable, D<=2", pairCfg{KindsA: host2, KindsB: host1, Ticks: 3, Drops: 2, Dups: 2, Dev: 2}},
